@@ -174,7 +174,58 @@ Theorem C12_mpool_atexit_frees_all :
 Proof. exact r_mp_atexit_frees_all. Qed.
 Print Assumptions C12_mpool_atexit_frees_all.
 
-(* the pool invariant (used above) holds after every operation of every program *)
+(* M5 mpool_exit_handler_registered.  [mp_inv] carries the conjunct: M->state = 1 (set together
+   with the atexit() call), or M->state = 0 and the pool has never obtained a block from the
+   allocator (no object, static stack).  (a) Hence in every state satisfying the invariant: anything
+   cached, held or live, an allocated stack, or any block ever obtained -> the handler is registered. *)
+Theorem C12_mpool_registered_when_used :
+  forall w,
+    mp_inv w ->
+    (mp_stack (w_pool w) <> [] \/ w_held w <> [] \/ w_live w <> [] \/
+     mp_static (w_pool w) = false \/ mp_nextid (w_pool w) <> 1) ->
+    mp_state (w_pool w) = 1.
+Proof. exact r_mp_inv_registered. Qed.
+Print Assumptions C12_mpool_registered_when_used.
+
+(* (b) for every program on a pool created by MPOOL(name, type, size), under every oracle: after
+   every operation the invariant holds, the number of atexit() calls made so far ([reg_calls]: the
+   POut outputs with the registration flag, which the correspondence run compares with the wrapped
+   atexit of the C) equals M->state - 0 or 1, never registered twice - and it is 1 from the first
+   operation on in which mpool_malloc returned an object *)
+Theorem C12_mpool_exit_handler_registered :
+  forall olen size ops o,
+    0 < size -> N.max size (2 * N.of_nat (length ops)) * 16 < W64 ->
+    exists tr,
+      r_mp_run olen ops (mp_world0 size) o = Ok tr /\
+      forall pre t post, tr = pre ++ t :: post ->
+        mp_inv (ptr_w t) /\
+        reg_calls (pre ++ [t]) = mp_state (w_pool (ptr_w t)) /\
+        ((exists t', In t' (pre ++ [t]) /\ out_ptr (ptr_out t') <> 0) -> reg_calls (pre ++ [t]) = 1).
+Proof. exact r_mp_exit_handler_registered. Qed.
+Print Assumptions C12_mpool_exit_handler_registered.
+
+(* (c) mpool_exit_returns_all: after ANY such program, process exit ([r_mp_exit]: the handler runs
+   iff M->state <> 0, i.e. by (b) iff atexit() was called for it) returns every cached object:
+   the cache is empty afterwards, the live objects are exactly those the client still holds, and
+   the events are one free() per cached object plus the stack iff it was allocated.
+   [That a handler passed to atexit() runs at exit is the C library's contract, not modelled.] *)
+Theorem C12_mpool_exit_returns_all :
+  forall olen size ops o,
+    0 < size -> N.max size (2 * N.of_nat (length ops)) * 16 < W64 ->
+    exists tr,
+      r_mp_run olen ops (mp_world0 size) o = Ok tr /\
+      let wf := mp_final (mp_world0 size) tr in
+      reg_calls tr = mp_state (w_pool wf) /\
+      let '(w', ev) := r_mp_exit olen wf in
+      mp_stack (w_pool w') = [] /\ w_held w' = w_held wf /\
+      Permutation (w_live w') (w_held wf) /\
+      ev = map (fun _ => AFree olen) (mp_stack (w_pool wf)) ++
+           (if mp_static (w_pool wf) then [] else [AFree (mp_slots (w_pool wf) * mpool_ptr_size)]).
+Proof. exact r_mp_exit_returns_all. Qed.
+Print Assumptions C12_mpool_exit_returns_all.
+
+(* the pool invariant (used above; it includes the registration conjunct) holds after every
+   operation of every program *)
 Theorem C12_mpool_invariant :
   forall olen size ops w o k,
     mp_inv w -> mp_count w <= k -> mp_allocsize (w_pool w) <= N.max size (2 * k) ->
